@@ -28,7 +28,7 @@ SPEC = dict(
                  I('hash_names', 'h_ht_alg', (), unwind=4, bound='all mechanism hash names'),
              ]),
         dict(name='digest', harness='h_digest.cpp', tus=[], models=MODELS, loop_bounds={r'^_ZN13QConcatenableI10QByteArrayE8appendTo': 48, r'^_ZN18QXmppSaslDigestMd516serializeMessage': 24, r'^_ZN18QXmppSaslDigestMd512parseMessage': 6},
-             instances=[I('digest_parse_probe', 'h_digest_parse_probe', (), unwind=12, timeout_s=60), I('digest_rspauth', 'h_digest_rspauth', (), unwind=12), I('digest_roundtrip', 'h_digest_roundtrip', (1,), unwind=12)]),
+             instances=[I('digest_parse_probe', 'h_digest_parse_probe', (1,), unwind=12, timeout_s=100, model_loop_bound=20), I('digest_rspauth', 'h_digest_rspauth', (), unwind=12), I('digest_roundtrip', 'h_digest_roundtrip', (1,), unwind=12)]),
         dict(name='mgr', harness='h_mgr.cpp', tus=['src/base/QXmppSasl.cpp', 'src/base/QXmppUtils.cpp', 'src/base/QXmppStreamManagement.cpp'], models=MODELS,
              ranges_shim=True, shadow_task=True, cxxdefs={'_GLIBCXX_RANGES': 1},
              loop_bounds={r'^_Z8qstrnlenPKcj': 40, r'^_ZN13QConcatenableI10QByteArrayE8appendTo': 48},
